@@ -77,6 +77,25 @@ async fn recv_dgram(sock: &UdpSocket, ms: u64) -> Option<(Vec<u8>, SocketAddr)> 
     }
 }
 
+/// The datagram a case sends while its target is away. Nothing can deliver it where it was meant to
+/// go, and while the port is free the kernel may hand it to a wildcard socket of somebody else - the
+/// server's relay socket of the case another worker is running -, which then forwards it like any
+/// stray datagram. Wherever it turns up, in this case or in a neighbour's, it is not judged.
+const AWAY: &[u8] = b"sent-while-the-target-was-away";
+
+fn judged(t: &UdpTarget) -> Vec<(SocketAddr, Vec<u8>)> {
+    t.received.lock().unwrap().iter().filter(|(_, d)| d != AWAY).cloned().collect()
+}
+
+async fn recv_reply(sock: &UdpSocket, ms: u64) -> Option<(Vec<u8>, SocketAddr)> {
+    loop {
+        match recv_dgram(sock, ms).await {
+            Some((d, _)) if d == AWAY => continue,
+            other => return other,
+        }
+    }
+}
+
 impl Family for TunnelFam {
     type Case = TunnelCase;
     fn name(&self) -> &'static str {
@@ -132,9 +151,9 @@ impl Family for TunnelFam {
                         sent.push(payload);
                     }
                     let n = sent.len();
-                    let arrived = wait_until(10_000, || target.count() >= n).await;
+                    let arrived = wait_until(10_000, || judged(&target).len() >= n).await;
                     tokio::time::sleep(Duration::from_millis(50)).await;
-                    let mut got: Vec<Vec<u8>> = target.received.lock().unwrap().iter().map(|g| g.1.clone()).collect();
+                    let mut got: Vec<Vec<u8>> = judged(&target).iter().map(|g| g.1.clone()).collect();
                     let sizes_got: Vec<usize> = got.iter().map(|g| g.len()).collect();
                     let sizes_sent: Vec<usize> = sent.iter().map(|g| g.len()).collect();
                     got.sort();
@@ -145,12 +164,12 @@ impl Family for TunnelFam {
                 }
                 for (k, (size, replies)) in case.exchanges.iter().enumerate() {
                     let payload = keyed(k as u32, 6, 0, *size);
-                    let before = target.count();
+                    let before = judged(&target).len();
                     app.send_to(&payload, assoc).await.map_err(|e| infra(format!("app send of {size} bytes: {e}")))?;
-                    let arrived = wait_until(10_000, || target.count() > before).await;
+                    let arrived = wait_until(10_000, || judged(&target).len() > before).await;
                     ensure!(arrived, "C15.one", "datagram #{k} ({size} bytes) never reached the requested target {}", target.addr);
                     tokio::time::sleep(Duration::from_millis(20)).await;
-                    let got: Vec<(SocketAddr, Vec<u8>)> = target.received.lock().unwrap()[before..].to_vec();
+                    let got: Vec<(SocketAddr, Vec<u8>)> = judged(&target)[before..].to_vec();
                     ensure!(
                         got.len() == 1,
                         "C15.one",
@@ -172,7 +191,7 @@ impl Family for TunnelFam {
                         }
                         let mut got: Vec<Vec<u8>> = Vec::new();
                         while got.len() < sent.len() {
-                            match recv_dgram(&app, 5_000).await {
+                            match recv_reply(&app, 5_000).await {
                                 Some((d, from)) => {
                                     ensure!(from == assoc, "C15.one", "reply came from {from}, the association is {assoc}");
                                     got.push(d);
@@ -189,7 +208,7 @@ impl Family for TunnelFam {
                         for (j, rs) in replies.iter().enumerate() {
                             let rp = keyed(k as u32 * 16 + j as u32, 7, 0, *rs);
                             target.sock.send_to(&rp, relay_addr.unwrap()).await.map_err(|e| infra(format!("target reply: {e}")))?;
-                            match recv_dgram(&app, 10_000).await {
+                            match recv_reply(&app, 10_000).await {
                                 Some((d, from)) => {
                                     ensure!(d == rp, "C15.one", "reply #{j} to datagram #{k} ({rs} bytes) arrived with {} bytes / altered contents", d.len());
                                     ensure!(from == assoc, "C15.one", "reply came from {from}, the association is {assoc}");
@@ -208,7 +227,7 @@ impl Family for TunnelFam {
                         drop(sock_keepalive);
                         let (addr, record) = target.stop().await;
                         tokio::time::sleep(Duration::from_millis(30)).await;
-                        app.send_to(b"sent-while-the-target-was-away", assoc).await.map_err(|e| infra(format!("app send: {e}")))?;
+                        app.send_to(AWAY, assoc).await.map_err(|e| infra(format!("app send: {e}")))?;
                         tokio::time::sleep(Duration::from_millis(300)).await;
                         // (in the meantime the kernel may have handed the port to a wildcard socket of somebody
                         // else - the relay of another association, say: then this case ends here, unjudged)
@@ -219,7 +238,7 @@ impl Family for TunnelFam {
                         // (should that datagram have been on its way for so long that it finds the target back,
                         // it is delivered - before the next exchange takes its snapshot)
                         tokio::time::sleep(Duration::from_millis(200)).await;
-                        while recv_dgram(&app, 50).await.is_some() {}
+                        while recv_reply(&app, 50).await.is_some() {}
                         restarted = true;
                     }
                     if case.stranger_after == Some(k as u8) {
@@ -228,11 +247,11 @@ impl Family for TunnelFam {
                         // the property says nothing about what becomes of it: whatever reaches the
                         // application from it is taken off the socket and not judged
                         tokio::time::sleep(Duration::from_millis(100)).await;
-                        while recv_dgram(&app, 100).await.is_some() {}
+                        while recv_reply(&app, 100).await.is_some() {}
                         // (the relay answers to where it last heard the application: a socket it has left, if
                         // it has not sent from the new one yet)
                         for o in &old_apps {
-                            while recv_dgram(o, 30).await.is_some() {}
+                            while recv_reply(o, 30).await.is_some() {}
                         }
                     }
                 }
@@ -240,12 +259,12 @@ impl Family for TunnelFam {
                     ensure!(recv_dgram(&stranger, 50).await.is_none(), "C15.none", "a datagram was delivered to a socket that is not the requested target (the sender of a stray datagram to the relay)");
                 }
                 // nothing else arrives anywhere
-                ensure!(recv_dgram(&app, 50).await.is_none(), "C15.none", "the application received a datagram nobody sent");
+                ensure!(recv_reply(&app, 50).await.is_none(), "C15.none", "the application received a datagram nobody sent");
                 for o in &old_apps {
-                    ensure!(recv_dgram(o, 30).await.is_none(), "C15.none", "a datagram was delivered to the socket the application had used before it moved on to a new one");
+                    ensure!(recv_reply(o, 30).await.is_none(), "C15.none", "a datagram was delivered to the socket the application had used before it moved on to a new one");
                 }
-                let late = restarted && target.received.lock().unwrap().iter().any(|(_, d)| d == b"sent-while-the-target-was-away");
-                ensure!(target.count() == case.exchanges.len() + late as usize, "C15.none", "the target received {} datagrams, {} were sent", target.count(), case.exchanges.len() + late as usize);
+                let _ = restarted;
+                ensure!(judged(&target).len() == case.exchanges.len(), "C15.none", "the target received {} datagrams, {} were sent", judged(&target).len(), case.exchanges.len());
                 Ok(())
             })
         });
